@@ -11,7 +11,7 @@ import (
 	"strings"
 
 	"massnet.org/mass/poc/wallet/db"
-	_ "massnet.org/mass/poc/wallet/db/ldb"
+	ldb "massnet.org/mass/poc/wallet/db/ldb"
 	"verifharness/hx"
 )
 
@@ -202,6 +202,26 @@ func (e *env) apply(line string) string {
 		e.tx.Rollback()
 		e.tx, e.mode, e.handles, e.work = nil, "", nil, nil
 		return "ok"
+	case "raw":
+		// the whole flat keyspace underneath (no transaction open): nothing is stored that the tree of buckets does not account for
+		if e.mode != "" {
+			return bad
+		}
+		l, ok := e.store.(*ldb.LevelDB)
+		if !ok {
+			return "err not-leveldb"
+		}
+		var ents []string
+		it := l.LDb.NewIterator(nil, nil)
+		for it.Next() {
+			ents = append(ents, hx.Hex(it.Key())+"="+hx.Hex(it.Value()))
+		}
+		it.Release()
+		sort.Strings(ents)
+		if len(ents) == 0 {
+			return "raw -"
+		}
+		return "raw " + strings.Join(ents, ",")
 	case "reopen":
 		e.closeAll()
 		s, err := db.OpenDB("leveldb", e.dbdir())
@@ -646,7 +666,7 @@ func main() {
 				h.Emit(op, e.apply(op))
 			}
 			// final audit of every bucket in the shadow after a reopen
-			for _, op := range []string{"reopen", "rbegin", "tnames"} {
+			for _, op := range []string{"reopen", "raw", "rbegin", "tnames"} {
 				h.Emit(op, e.apply(op))
 			}
 			e.audit(e.shadow, nil)
